@@ -213,6 +213,64 @@ example : WF bigExample = true ∧ valuesT (tables bigExample) = [1, 92233720368
     printed bigExample.kind 9223372036854775808 = 9223372036854775808 ∧
     stringOf bigExample.kind bigExample.T (tables bigExample) 9223372036854775808 = .name ['B'] := by decide
 
+/-! ### finding regions: concrete packages inside the property's quantifier on which the model (and the
+code) differs from the specification -/
+
+/-- `type Color int; const ( Red Color = iota + 1; Green ); func f() { const tmp Color = 7 }` -/
+def localWitness : Input :=
+  { T := cColor, kind := ⟨true, 64⟩,
+    blocks := [[{ names := [cRed], ty := some cColor, hasVals := true, exprTy := none, vals := [1] },
+                { names := [cGreen], ty := none, hasVals := false, exprTy := none, vals := [2] }]],
+    locals := [[{ names := [['t', 'm', 'p']], ty := some cColor, hasVals := true, exprTy := none, vals := [7] }]] }
+
+/-- the function-local constant lands in the tables; it is not a constant of the package: the
+    emitted file does not compile, while the declaration has exactly two constants -/
+theorem C04_F_local_const_witness :
+    F_local_const localWitness = true ∧ valuesT (tables localWitness) = [1, 2, 7] ∧
+    specValues localWitness.decl = [1, 2] ∧
+    compiles false localWitness.T localWitness.decl (tables localWitness) = false := by decide
+
+def cWait : Name := ['W', 'a', 'i', 't']
+def cLater : Name := ['L', 'a', 't', 'e', 'r']
+def cDuration : Name := ['t', 'i', 'm', 'e', '.', 'D', 'u', 'r', 'a', 't', 'i', 'o', 'n']
+
+/-- `const ( Red Color = iota + 1; Wait time.Duration = 5; Later )` -/
+def nonIdentWitness : Input :=
+  { T := cColor, kind := ⟨true, 64⟩,
+    blocks := [[{ names := [cRed], ty := some cColor, hasVals := true, exprTy := none, vals := [1] },
+                { names := [cWait], ty := some cDuration, hasVals := true, exprTy := none, vals := [5], tyIdent := false },
+                { names := [cLater], ty := none, hasVals := false, exprTy := none, vals := [5] }]] }
+
+/-- `Later` (a time.Duration by the Go rule) is collected as a Color: the output does not compile -/
+theorem C04_F_nonident_type_witness :
+    F_nonident_type nonIdentWitness = true ∧ valuesT (tables nonIdentWitness) = [1, 5] ∧
+    specValues nonIdentWitness.decl = [1] ∧
+    compiles false nonIdentWitness.T nonIdentWitness.decl (tables nonIdentWitness) = false := by decide
+
+/-- `const ( Red Color = 1; X (Color) = 7 )`: X is a Color, the tables do not have it (and compile) -/
+def parenWitness : Input :=
+  { T := cColor, kind := ⟨true, 64⟩,
+    blocks := [[{ names := [cRed], ty := some cColor, hasVals := true, exprTy := none, vals := [1] },
+                { names := [['X']], ty := some cColor, hasVals := true, exprTy := none, vals := [7], tyIdent := false }]] }
+
+theorem C04_F_nonident_paren_witness :
+    F_nonident_type parenWitness = true ∧ valuesT (tables parenWitness) = [1] ∧
+    specValues parenWitness.decl = [1, 7] ∧
+    isValid parenWitness.T (tables parenWitness) 7 = false ∧ specValid parenWitness.decl 7 = true := by decide
+
+/-- the same constructs where they do no harm are inside the grammar of `C04_collect`:
+    `const ( Red Color = 1; Wait time.Duration = 5; Green Color = 2 ); func f() { const ( k = 3; m ) }` -/
+def harmlessExample : Input :=
+  { T := cColor, kind := ⟨true, 64⟩,
+    blocks := [[{ names := [cRed], ty := some cColor, hasVals := true, exprTy := none, vals := [1] },
+                { names := [cWait], ty := some cDuration, hasVals := true, exprTy := none, vals := [5], tyIdent := false },
+                { names := [cGreen], ty := some cColor, hasVals := true, exprTy := none, vals := [2] }]],
+    locals := [[{ names := [['k']], ty := none, hasVals := true, exprTy := none, vals := [3] },
+                { names := [['m']], ty := none, hasVals := false, exprTy := none, vals := [3] }]] }
+
+example : grammarOK harmlessExample = true ∧ WF harmlessExample = true ∧
+    valuesT (tables harmlessExample) = [1, 2] := by decide
+
 /-! ### non-vacuity: a concrete declaration in WF using carry-down, a placeholder, a reset by an
 untyped constant, two blocks and a prefix that is trimmed -/
 
